@@ -200,6 +200,18 @@ func contractMentions(ct *Contract, prop string) bool {
 			}
 		}
 	}
+	for _, cs := range ct.Each {
+		for _, c := range cs {
+			if hasProp(c.Props, prop) {
+				return true
+			}
+		}
+	}
+	for _, c := range ct.Defines {
+		if hasProp(c.Props, prop) {
+			return true
+		}
+	}
 	return false
 }
 
